@@ -10,7 +10,7 @@ import (
 
 var (
 	Keys    = []string{"a", "b", "c", "d", "e"}
-	Strings = []string{"a", "b", "c", "x", "y", "", "q?"}
+	Strings = []string{"a", "b", "c", "x", "y", "", "q?", "1", "2", "true", "<nil>", "1.5", "null"} // incl. strings that print like scalars of another type
 	Numbers = []float64{0, 1, 2, 3, 1.5, -1, 10}
 )
 
